@@ -10,14 +10,23 @@ HERE = os.path.dirname(os.path.dirname(os.path.abspath(__file__)))
 res = {}
 for f in glob.glob(os.path.join(HERE, "seeded", "RESULTS-*.json")):
     for k, v in json.load(open(f)).items():
-        res.setdefault(k, {}).update(v.get("checks", {}))
+        for c_, val in v.get("checks", {}).items():
+            cur = res.setdefault(k, {})
+            if "thorough" in os.path.basename(f):
+                if val == "CAUGHT" and cur.get(c_) != "CAUGHT":
+                    cur[c_] = "CAUGHT"
+                    cur.setdefault("_thorough_only", []).append(c_)
+            elif cur.get(c_) != "CAUGHT" or val == "CAUGHT":
+                if val == "CAUGHT" and c_ in cur.get("_thorough_only", []):
+                    cur["_thorough_only"].remove(c_)
+                cur[c_] = val
         res[k]["_valid"] = (v.get("demo_clean") == 0 and v.get("suite") == 0 and v.get("demo_with_patch") == 1)
 rows = []
 for d in sorted(glob.glob(os.path.join(HERE, "seeded", "C*"))):
     name = os.path.basename(d)
     m = json.load(open(os.path.join(d, "meta.json")))
     r = res.get(name, {})
-    caught = sorted(k for k, v in r.items() if v == "CAUGHT")
+    caught = sorted((k + " (thorough tier only)" if k in r.get("_thorough_only", []) else k) for k, v in r.items() if v == "CAUGHT")
     missed = sorted(k for k, v in r.items() if v == "missed")
     rows.append((name, m["property"], m["title"].replace("|", "\\|"), m.get("needs", "").replace("|", "\\|").replace("\n", " "), caught, missed, r.get("_valid"), m.get("outside_domain")))
 lines = ["| seed | breaks | change | caught by (quick tier) |", "|---|---|---|---|"]
